@@ -39,3 +39,30 @@ Print Assumptions C11_not_blocked_after_close.
 Print Assumptions C11_unblocks.
 Print Assumptions C11_forever_ends.
 Print Assumptions C11_close_notifies_parked.
+From SH Require Import iter.Adapter.
+Check C11_adapter_pending_means_waker_registered :
+  forall (poll_read : shared -> rres * shared),
+  (forall s, pipe s = 0 -> poll_read s = (RdPending, set_pipe s 0 true (notified s))) ->
+  (forall s p, pipe s = S p -> poll_read s = (RdReady 1, set_pipe s p (armed s) (notified s))) ->
+  forall pm cm,
+  (pm, cm) = (tokio_poll_map, tokio_cb_map) \/ (pm, cm) = (asyncstd_poll_map, asyncstd_cb_map) ->
+  forall raw c ls, 1 <= c ->
+  let w := reach raw c ls in
+  cpc_ (w_co w) = CIdle -> adapter_poll_next pm w = APending ->
+  cop (w_co w) = OPoll /\ 1 <= ncb (w_co w) /\ cb_last (w_co w) = Some false /\
+  (forall s, fst (adapter_cb poll_read cm s) = Some false ->
+             fst (poll_read s) = RdPending /\ armed (snd (poll_read s)) = true) /\
+  (armed (w_sh w) = true \/ notified (w_sh w) = true).
+Check C11_adapter_closed_ends_stream :
+  forall pm cm,
+  (pm, cm) = (tokio_poll_map, tokio_cb_map) \/ (pm, cm) = (asyncstd_poll_map, asyncstd_cb_map) ->
+  forall raw c ls, 1 <= c ->
+  let w := reach raw c ls in
+  closew (w_sh w) = true ->
+  (cop (w_co w) = OPoll -> cpc_ (w_co w) <> CIdle ->
+     exists n, 1 <= n /\ n <= MAX_SIGNUM + 3 /\ cpc_ (w_co (csolo n w)) = CIdle /\
+               (adapter_poll_next pm (csolo n w) = AReadyNone \/ adapter_poll_next pm (csolo n w) = AReadySome)) /\
+  (cpc_ (w_co w) = CP1 -> cpc_ (w_co (cstep_w w)) = CIdle /\ adapter_poll_next pm (cstep_w w) = AReadyNone) /\
+  (cpc_ (w_co w) = CIdle -> adapter_poll_next pm w = APending -> notified (w_sh w) = true).
+Print Assumptions C11_adapter_pending_means_waker_registered.
+Print Assumptions C11_adapter_closed_ends_stream.
